@@ -188,6 +188,35 @@ func init() {
 					w.finish(true)
 				})
 			}
+			// 4a00. the low threshold is raised above / lowered below the buffered amount while data is outstanding: moving
+			//       the threshold is not a crossing (the amount did not fall), and whatever the setter does it does
+			//       without holding the stream's lock while the application's callback runs (the callback re-enters)
+			if next() {
+				label := fmt.Sprintf("api-threshold-move-il%v#%d", il, k)
+				run(label, func() {
+					w := vfNewWorld(vfWorldOpt{Label: label, Trace: tr, A: vfEpCfg{InitTSN: 20, Tag: 0xA6, IL: il}, B: vfEpCfg{InitTSN: 48, Tag: 0xB6, IL: il, Server: true}})
+					if !w.vfConnect() {
+						w.finish(true)
+						return
+					}
+					w.open(0, 1, 51)
+					w.installCallback(0, 1, 100)
+					w.write(0, 1, 1000, 51) // stays in the network: 1000 bytes buffered, above the threshold
+					st := w.stream(0, 1)
+					for _, v := range []int{5000, 200, 1000, 999, 1 << 20} {
+						v := v
+						w.tr.emit(map[string]any{"ev": "api", "ep": 0, "op": "threshold", "sid": 1, "val": v, "t": w.now()})
+						go st.SetBufferedAmountLowThreshold(uint64(v))
+						w.quiesce()
+						w.write(0, 1, 10, 51)
+					}
+					w.heal(30 * time.Second)
+					w.snapAll = true
+					w.quiesce()
+					w.tr.emit(map[string]any{"ev": "expect", "drained": true, "t": w.now()})
+					w.finish(true)
+				})
+			}
 			// 4a0. blocking writes that are still waiting when the application calls Shutdown: the association is no longer
 			//      established when they could be queued -- they fail, what was accepted before is delivered, Shutdown completes
 			if next() {
